@@ -1,11 +1,11 @@
 SPECIFICATION MCSpec
 CONSTANTS
   PermuteModules = FALSE
-  MaxFields = 2
+  MaxFields = 3
   Addrs <- QAddrs
-  Sizes <- QSizes
-  Aligns <- QAligns
-  Palette <- QPalette
+  Sizes <- T1Sizes
+  Aligns <- T1Aligns
+  Palette <- T1Palette
   Ptrs = {4, 8}
   WithVft = {FALSE, TRUE}
   WithPacked = {FALSE}
